@@ -122,6 +122,9 @@ func (e *Engine) callFunction(s *State, f *Frame, x *ssa.Call, callee *ssa.Funct
 				k++
 			}
 			f.callResults[fmt.Sprintf("%s#%d", funcKey(callee), k)] = r
+			for gname, gv := range e.lastGhosts {
+				f.callResults[fmt.Sprintf("%s#%d.%s", funcKey(callee), k, gname)] = gv
+			}
 			f.ip++
 			return true
 		}
@@ -229,7 +232,16 @@ func (e *Engine) applyContract(s *State, f *Frame, x ssa.Instruction, callee *ss
 	}
 	site := e.callSiteName(f, x, key)
 	c := &evalCtx{e: e, s: s, env: env, pkg: callee.Pkg.Pkg}
-	if probe == nil {
+	acceptance := e.mode == COMPLETE && e.curC != nil && e.curC.Flags["acceptance-asserts"] && len(s.stack) == 1 && strings.HasPrefix(callee.Name(), "AssertIsEqual")
+	if acceptance {
+		// the function's own equality assertions are its acceptance condition: in COMPLETE mode they are the
+		// premise ("the identity holds"), everything else must then be satisfied
+		for _, cl := range ct.Honest {
+			s.assume(c.evalBool(cl.Expr))
+		}
+		e.note("acceptance-asserts: in COMPLETE mode the function's own AssertIsEqual* calls are taken as the acceptance premise")
+	}
+	if probe == nil && !acceptance {
 		for k, cl := range ct.Requires {
 			if !e.clauseApplies(cl) {
 				continue
@@ -243,7 +255,7 @@ func (e *Engine) applyContract(s *State, f *Frame, x ssa.Instruction, callee *ss
 				e.emit(s, "honest", fmt.Sprintf("%s.hon%d", site, k), t, x.Pos(), cl.Src)
 			}
 		}
-	} else {
+	} else if !acceptance {
 		for _, cl := range ct.Requires {
 			if e.clauseApplies(cl) {
 				s.assume(c.evalBool(cl.Expr))
@@ -278,12 +290,14 @@ func (e *Engine) applyContract(s *State, f *Frame, x ssa.Instruction, callee *ss
 		env[names[i]] = v
 	}
 	// ghost results: values that exist in the callee (its local variables of that name at return)
+	e.lastGhosts = map[string]Value{}
 	for _, g := range ct.Ghosts {
 		tv, err := types.Eval(e.fset, callee.Pkg.Pkg, callee.Pos(), g.TypeExpr)
 		if err != nil {
 			panic(execError{"ghost " + g.Name + ": cannot resolve type " + g.TypeExpr + ": " + err.Error()})
 		}
 		env[g.Name] = a.abstractValue(tv.Type, uniqueName("ghost."+key+"."+g.Name), nil)
+		e.lastGhosts[g.Name] = env[g.Name]
 	}
 	for _, fc := range a.facts {
 		s.assume(fc)
